@@ -5,6 +5,7 @@ import (
 	"context"
 	"database/sql/driver"
 	"fmt"
+	"os"
 	"runtime"
 	"strconv"
 	"strings"
@@ -64,7 +65,7 @@ type sched struct {
 	evicted     map[string]int
 	closerStart int
 	closerDone  int
-	closers     map[interface{}]bool
+	closers     map[interface{}]int
 	tick        int
 	resets      int
 	closeIssued bool
@@ -78,6 +79,11 @@ type sched struct {
 	parkHooks     bool
 	// badconnTxFirst: the ErrBadConn budget is spent on the first statement executed inside a transaction
 	badconnTxFirst bool
+
+	lastDump    []string
+	rowErr      map[int]error // error of the worker's last Row() finisher
+	ctlInFlight int           // controller actions (Reset / Close) that were started and have not returned yet
+	ctlPanics   []string
 
 	verbose    bool
 	systematic bool       // beyond the forced prefix always take the first option (enumeration)
@@ -170,16 +176,16 @@ func (s *sched) hookPoint(point string, arg interface{}) {
 	case "closer.start":
 		s.mu.Lock()
 		if s.closers == nil {
-			s.closers = map[interface{}]bool{}
+			s.closers = map[interface{}]int{}
 		}
-		s.closers[arg] = true
+		s.closers[arg]++ // the same statement may be closed by several Reset / Close calls (shared map)
 		s.closerStart++
 		s.mu.Unlock()
 	case "closer.done":
 		// closers of an earlier (aborted) schedule may finish late: count our own only
 		s.mu.Lock()
-		if s.closers[arg] {
-			delete(s.closers, arg)
+		if s.closers[arg] > 0 {
+			s.closers[arg]--
 			s.closerDone++
 		}
 		s.mu.Unlock()
@@ -270,6 +276,55 @@ type ctlAction struct {
 	do   func()
 }
 
+// startCtl runs a controller action (Reset / Close) on a goroutine of its own - the cache's own
+// clean-up may have to wait for a worker, and a worker for the scheduler - and waits a short while for
+// it: an action that has not returned by then stays in flight while the scheduler goes on releasing calls.
+func (s *sched) startCtl(a ctlAction) {
+	s.mu.Lock()
+	s.ctlInFlight++
+	s.mu.Unlock()
+	done := make(chan struct{})
+	go func() {
+		defer func() {
+			if p := recover(); p != nil {
+				s.mu.Lock()
+				s.ctlPanics = append(s.ctlPanics, fmt.Sprintf("%s panicked: %v", a.name, p))
+				s.mu.Unlock()
+			}
+			s.mu.Lock()
+			s.ctlInFlight--
+			s.mu.Unlock()
+			close(done)
+			s.signal()
+		}()
+		a.do()
+	}()
+	select {
+	case <-done:
+	case <-time.After(100 * time.Millisecond):
+		s.mu.Lock()
+		s.trace = append(s.trace, "  ("+a.name+" has not returned yet)")
+		s.mu.Unlock()
+	}
+}
+
+// waitCtl waits (bounded) until every controller action has returned.
+func (s *sched) waitCtl() bool {
+	for i := 0; i < 120; i++ {
+		s.mu.Lock()
+		n := s.ctlInFlight
+		s.mu.Unlock()
+		if n == 0 {
+			return true
+		}
+		select {
+		case <-s.changed:
+		case <-time.After(50 * time.Millisecond):
+		}
+	}
+	return false
+}
+
 // run drives the schedule; it returns "" or a description of a lack of progress.
 func (s *sched) run(ctl []ctlAction) (stuck string) {
 	for {
@@ -345,7 +400,7 @@ func (s *sched) run(ctl []ctlAction) (stuck string) {
 			s.mu.Lock()
 			s.trace = append(s.trace, "controller: "+a.name)
 			s.mu.Unlock()
-			a.do()
+			s.startCtl(a)
 		}
 	}
 	if s.lastCtl != nil {
@@ -356,7 +411,10 @@ func (s *sched) run(ctl []ctlAction) (stuck string) {
 		s.mu.Lock()
 		s.trace = append(s.trace, "controller (at end): "+a.name)
 		s.mu.Unlock()
-		a.do()
+		s.startCtl(a)
+	}
+	if !s.waitCtl() {
+		return s.describeStuck()
 	}
 	return ""
 }
@@ -367,6 +425,35 @@ func (s *sched) describeStuck() string {
 	buf := make([]byte, 1<<20)
 	n := runtime.Stack(buf, true)
 	dump := string(buf[:n])
+	if os.Getenv("VERIF_C14_DUMP") != "" {
+		fmt.Println(dump)
+	}
+	// compact form of every goroutine that is inside gorm, database/sql or the SQLite driver
+	s.lastDump = nil
+	for _, g := range strings.Split(dump, "\n\n") {
+		if !strings.Contains(g, "gorm.io/gorm") && !strings.Contains(g, "database/sql") && !strings.Contains(g, "go-sqlite3") {
+			continue
+		}
+		lines := strings.Split(g, "\n")
+		item := []string{lines[0]}
+		for _, l := range lines[1:] {
+			if !strings.HasPrefix(l, "\t") && len(item) < 14 {
+				if i := strings.LastIndex(l, "("); i > 0 {
+					l = l[:i]
+				}
+				item = append(item, strings.TrimSpace(l))
+			}
+		}
+		s.lastDump = append(s.lastDump, strings.Join(item, " < "))
+	}
+	// a goroutine inside SQLite's busy handler (BEGIN IMMEDIATE / a write waiting for the single writer
+	// lock, while database/sql holds that connection's mutex) ends by itself after the busy timeout: what
+	// looks stuck then is a long wait created by the test database, not a deadlock of the cache
+	for _, g := range strings.Split(dump, "\n\n") {
+		if strings.Contains(g, "[syscall") && strings.Contains(g, "go-sqlite3") {
+			return "inconclusive: no progress while a connection waits for SQLite's writer lock (bounded by the busy timeout)"
+		}
+	}
 	var blocked []string
 	for _, g := range strings.Split(dump, "\n\n") {
 		if strings.Contains(g, "gorm.io/gorm.(*PreparedStmt") && (strings.Contains(g, "chan receive") || strings.Contains(g, "sync.Mutex") || strings.Contains(g, "sync.RWMutex") || strings.Contains(g, "semacquire") || strings.Contains(g, "select")) {
